@@ -43,6 +43,9 @@ fn parse_op(line: &str) -> Option<WriteOp> {
     }
     let mode = Mode::parse(t[0])?;
     let knobs = Knobs::parse(&t[1..6])?;
+    if !matches!(knobs.max_bytes_per_file, None | Some(0)) {
+        return None; // only the default and 0 are modelled
+    }
     let spec = SchemaSpec::parse(t[6].strip_prefix("k=")?, t[7].strip_prefix("x=")?)?;
     let batches = parse_batches(t[8])?;
     if !batches.iter().all(|b| spec.check_rows(b)) {
@@ -54,7 +57,20 @@ fn parse_op(line: &str) -> Option<WriteOp> {
 /// what the harness itself believes the table holds (oracle side; independent of the Lean model)
 struct Expect {
     spec: SchemaSpec,
+    /// the rows written (the property's table)
     rows: Vec<Row>,
+    /// the same rows with the known lossy step of the legacy format applied at the time they were written
+    /// (used only to classify a mismatch as the known finding `legacy_nulls_lost`)
+    stored: Vec<Row>,
+}
+
+/// classify a difference between what was read and what was written
+fn mismatch_key(got: &[Row], x: &Expect, default_key: &'static str) -> &'static str {
+    if got == x.stored.as_slice() {
+        "legacy_nulls_lost"
+    } else {
+        default_key
+    }
 }
 
 /// columns of `new` mapped into the table schema `tbl`: position of every table column in a written row, or None (NULL
@@ -113,7 +129,9 @@ impl C11 {
         SchemaSpec { ints, extras }
     }
 
-    fn gen_batches(rng: &mut Rng, spec: &SchemaSpec) -> Vec<Vec<Row>> {
+    /// `legacy`: the table will be stored in the legacy format — NULL lists / struct children are read back as values
+    /// the kit cannot represent (empty list, struct (0, NULL)), so the generator leaves them out (see level_note)
+    fn gen_batches(rng: &mut Rng, spec: &SchemaSpec, legacy: bool) -> Vec<Vec<Row>> {
         let nb = match rng.below(12) {
             0 => 0,
             1..=4 => 1,
@@ -133,7 +151,15 @@ impl C11 {
                 (0..nr)
                     .map(|_| {
                         (0..spec.width())
-                            .map(|c| if all_null { None } else { Self::gen_cell(rng, c >= spec.ints) })
+                            .map(|c| {
+                                let nested = c >= spec.ints && matches!(spec.extras[c - spec.ints], Extra::Struct | Extra::List);
+                                let cell = if all_null { None } else { Self::gen_cell(rng, c >= spec.ints) };
+                                if legacy && nested && cell.is_none() {
+                                    Some(rng.below(9) as i64 - 4)
+                                } else {
+                                    cell
+                                }
+                            })
                             .collect()
                     })
                     .collect()
@@ -182,6 +208,8 @@ impl Prop for C11 {
         let len = 1 + rng.usize(6);
         let mut spec = Self::gen_spec(rng);
         let mut exists = false;
+        let mut ver = Ver::V2_0;
+        let mut seen_legacy = false;
         let mut lines = vec![];
         for i in 0..len {
             let mode = if !exists {
@@ -216,7 +244,17 @@ impl Prop for C11 {
                 }
             }
             let knobs = Self::gen_knobs(rng, malformed && i + 1 >= len / 2);
-            let batches = Self::gen_batches(rng, &op_spec);
+            // the storage version the rows of this op will be stored with (approximate: assumes the op succeeds)
+            let op_ver = if !exists {
+                knobs.version.unwrap_or(Ver::V2_0)
+            } else if mode == Mode::Overwrite {
+                knobs.version.unwrap_or(ver)
+            } else {
+                ver
+            };
+            // sticky: a failed overwrite leaves a legacy table in place, so once legacy was requested stay careful
+            seen_legacy |= op_ver == Ver::Legacy || knobs.version == Some(Ver::Legacy);
+            let batches = Self::gen_batches(rng, &op_spec, seen_legacy);
             let op = WriteOp { mode, knobs, spec: op_spec.clone(), batches };
             let mut line = show_op(&op);
             if malformed && rng.chance(1, 12) {
@@ -232,6 +270,7 @@ impl Prop for C11 {
             if !(exists && mode == Mode::Create) {
                 if !exists || mode == Mode::Overwrite {
                     spec = op_spec;
+                    ver = op_ver;
                 }
                 exists = true;
             }
@@ -290,13 +329,19 @@ impl Prop for C11 {
                         match kit.open(&uri, None).and_then(|fresh| kit.scan(&fresh, &x.spec, &ScanOpts::ordered())) {
                             Ok(rows) if rows == x.rows => {}
                             other => res.failures.push(OracleFailure {
+                                key: Some(
+                                    match &other {
+                                        Ok(rows) => mismatch_key(rows, x, "failed_write_changed_table"),
+                                        Err(_) => "failed_write_changed_table",
+                                    }
+                                    .into(),
+                                ),
                                 what: format!(
                                     "after a failed {} the table (was version {}) no longer scans to what was written: {:?}",
                                     mode_str(op.mode),
                                     d.version().version,
                                     other.map(|r| show_rows(&r)).map_err(|e| e.msg)
                                 ),
-                                key: Some("failed_write_changed_table".into()),
                                 line: ln,
                             }),
                         }
@@ -305,15 +350,24 @@ impl Prop for C11 {
                 Ok(new_ds) => {
                     // ---- the harness's own expectation (oracle)
                     let effective_create = ds.is_none();
+                    let sv = Kit::storage_version(&new_ds);
+                    let lossy = |spec: &SchemaSpec, rows: &[Row]| match sv {
+                        Some(v) => spec.stored(v, rows),
+                        None => rows.to_vec(),
+                    };
                     let expected: Expect = if effective_create || op.mode == Mode::Overwrite {
-                        Expect { spec: op.spec.clone(), rows: flat.clone() }
+                        Expect { spec: op.spec.clone(), rows: flat.clone(), stored: lossy(&op.spec, &flat) }
                     } else {
                         let x = exp.as_ref().unwrap();
                         match column_map(&x.spec, &op.spec) {
                             Some(m) => {
+                                let added: Vec<Row> =
+                                    flat.iter().map(|r| m.iter().map(|p| p.and_then(|p| r[p])).collect::<Row>()).collect();
                                 let mut rows = x.rows.clone();
-                                rows.extend(flat.iter().map(|r| m.iter().map(|p| p.and_then(|p| r[p])).collect::<Row>()));
-                                Expect { spec: x.spec.clone(), rows }
+                                rows.extend(added.iter().cloned());
+                                let mut stored = x.stored.clone();
+                                stored.extend(lossy(&x.spec, &added));
+                                Expect { spec: x.spec.clone(), rows, stored }
                             }
                             None => {
                                 res.failures.push(OracleFailure {
@@ -321,7 +375,7 @@ impl Prop for C11 {
                                     key: Some("append_foreign_schema_accepted".into()),
                                     line: ln,
                                 });
-                                Expect { spec: x.spec.clone(), rows: x.rows.clone() }
+                                Expect { spec: x.spec.clone(), rows: x.rows.clone(), stored: x.stored.clone() }
                             }
                         }
                     };
@@ -335,7 +389,7 @@ impl Prop for C11 {
                             if rows != &expected.rows {
                                 fail(
                                     format!("ordered scan {} differs from what was written {}", show_rows(rows), show_rows(&expected.rows)),
-                                    "scan_mismatch",
+                                    mismatch_key(rows, &expected, "scan_mismatch"),
                                 );
                             }
                             show_rows(rows)
@@ -351,9 +405,11 @@ impl Prop for C11 {
                             let mut want = expected.rows.clone();
                             want.sort();
                             if rows != want {
+                                let mut st = expected.stored.clone();
+                                st.sort();
                                 fail(
                                     format!("unordered scan (sorted) {} is not the multiset written {}", show_rows(&rows), show_rows(&want)),
-                                    "scan_mismatch_unordered",
+                                    if rows == st { "legacy_nulls_lost" } else { "scan_mismatch_unordered" },
                                 );
                             }
                         }
@@ -384,7 +440,7 @@ impl Prop for C11 {
                     if frags.len() > 1 {
                         multi_frag = true;
                     }
-                    let sv = Kit::storage_version(&new_ds).map(|v| v.as_str()).unwrap_or("?");
+                    let sv = sv.map(|v| v.as_str()).unwrap_or("?");
                     res.tags.push(format!("sv:{sv}"));
                     res.tags.push(format!("nfrags:{}", frags.len().min(6)));
                     if op.spec != expected.spec {
@@ -414,12 +470,18 @@ impl Prop for C11 {
             match kit.open(&uri, None).and_then(|fresh| kit.scan(&fresh, &x.spec, &ScanOpts::ordered())) {
                 Ok(rows) if rows == x.rows => {}
                 other => res.failures.push(OracleFailure {
+                    key: Some(
+                        match &other {
+                            Ok(rows) => mismatch_key(rows, x, "reopen_mismatch"),
+                            Err(_) => "reopen_mismatch",
+                        }
+                        .into(),
+                    ),
                     what: format!(
                         "a freshly opened handle scans {:?}, written {}",
                         other.map(|r| show_rows(&r)).map_err(|e| e.msg),
                         show_rows(&x.rows)
                     ),
-                    key: Some("reopen_mismatch".into()),
                     line: lines.len().saturating_sub(1),
                 }),
             }
